@@ -137,7 +137,12 @@ class BstParser(Scanner):
             elif token.pattern is self.RBRACE:
                 break
             else:
-                yield self.LITERAL_TYPES[token.pattern](token.value)
+                try:
+                    literal = self.LITERAL_TYPES[token.pattern](token.value)
+                except ValueError:
+                    # int() refuses more than sys.get_int_max_str_digits() digits
+                    raise PybtexSyntaxError('integer literal too long', self)
+                yield literal
 
     def parse_command(self):
         command_name = self.required([self.NAME], 'BST command', allow_eof=True).value
